@@ -1492,6 +1492,12 @@ impl Zeroconf {
                     debug!("Exit command received, performing cleanup");
                     self.cleanup();
                     self.status = DaemonStatus::Shutdown;
+
+                    // Commands queued behind Exit are not executed. Drop them now:
+                    // they would stay in the channel as long as any handle lives,
+                    // with their reply and event channels neither answered nor closed.
+                    while receiver.try_recv().is_ok() {}
+
                     return Some(command);
                 }
                 self.exec_command(command, false);
